@@ -289,7 +289,7 @@ class TextMessagingService(BytesInterface, LoggingTrait):
             data += self.encode_sn_and_encoding(endian=endian)
             data += self.message
         elif self.header.pdu_type == TMSPDUType.TMS_ACKNOWLEDGEMENT:
-            if self.sequence_number or self.encoding:
+            if self.sequence_number is not None or self.encoding:
                 has_more_headers = True
                 data += self.encode_sn_and_encoding(endian=endian)
             # NO PAYLOAD
